@@ -46,6 +46,13 @@ Theorem C09_answer_translation : forall ops sid a,
 Proof. exact answer_translation_reachable. Qed.
 Print Assumptions C09_answer_translation.
 
+(* a non-Circuit answer (v = 0 a string, 1..6 the falsy values False, 0, '', [], {}, ()), delivered in any mode, is an
+   invalid answer for the Spec, and the model reports it and sends nothing, from ANY state *)
+Theorem C09_invalid_answer_reported : forall s tt sid v,
+  decide tt (AKNotCirc v) = DInvalid /\ issue s sid (AKNotCirc v) = (s, [EReported]).
+Proof. exact (fun s tt sid v => conj (not_a_circuit_invalid tt v) (not_a_circuit_reported s sid v)). Qed.
+Print Assumptions C09_invalid_answer_reported.
+
 Theorem C09_decision_is_spec_decide : forall s tt a, incs tt = map inc_of (objs s) -> decide tt a = decide_now s a.
 Proof. exact decide_now_spec. Qed.
 Print Assumptions C09_decision_is_spec_decide.
